@@ -866,8 +866,11 @@ def check_c14(env, fam, L):
 
 def run_family(env, check, count):
     """generate `count` families and run `check` (one of the functions above) on each"""
+    import time
     for j in range(count):
-        if env.out_of_time():
+        # never more than a third of the time cap: the main workload of the check comes after
+        if env.out_of_time() or (j > 0 and time.time() - env.t0 > 0.33 * env.time_cap):
+            env.count("discriminated_families_stopped_by_time_share")
             break
         fam = generate(env.rng, j)
         try:
